@@ -48,11 +48,37 @@ Qed.
 Definition c04_present {A} (o : option A) : bool := match o with Some _ => true | None => false end.
 
 Definition c04_inv (c : c04_case) (s : c04_state) : Prop :=
-  c04_state_ok c s = true
+  (c04_opt (c04_ll_ok c KNode) (st_nll s) && c04_opt (c04_xyz_ok c KNode) (st_nxyz s) &&
+   c04_opt (c04_ll_ok c KEdge) (st_ell s) && c04_opt (c04_xyz_ok c KEdge) (st_exyz s) = true)
+  /\ (exists F, c04_face_ok c (st_fll s) (st_fxyz s) F = true)
   /\ (c04_present (st_nll s) || c04_present (st_nxyz s) = true)
   /\ (c04_supplied c KEdge = true -> c04_present (st_ell s) || c04_present (st_exyz s) = true)
   /\ (c04_supplied c KFace = true -> c04_present (st_fll s) || c04_present (st_fxyz s) = true)
-  /\ (st_norm s = true -> c04_state_unit c s = true).
+  /\ (st_norm s = true ->
+        (c04_opt (c04_xyz_unit_ok c KNode) (st_nxyz s) && c04_opt (c04_xyz_unit_ok c KEdge) (st_exyz s) = true)
+        /\ exists F, c04_is_face_fam F = true /\ c04_opt (c04_xyz_unit_ok c F) (st_fxyz s) = true).
+
+Lemma c04_base_face F : c04_is_face_fam F = true -> c04_base F = KFace.
+Proof. destruct F; simpl; intros H; try discriminate; reflexivity. Qed.
+
+Lemma c04_face_ok_state c ol ox F :
+  c04_face_ok c ol ox F = true ->
+  c04_face_ok c ol ox KFace || c04_face_ok c ol ox KFaceMean || c04_face_ok c ol ox KFaceWelzl = true.
+Proof.
+  intros H. assert (I : c04_is_face_fam F = true) by (unfold c04_face_ok in H; destruct (c04_is_face_fam F); [reflexivity|discriminate H]).
+  destruct F; try discriminate I; rewrite H; repeat rewrite orb_true_r; reflexivity.
+Qed.
+
+Lemma c04_face_unit_state c ox F :
+  c04_is_face_fam F = true -> c04_opt (c04_xyz_unit_ok c F) ox = true -> c04_face_unit_ok c ox = true.
+Proof.
+  intros I H. unfold c04_face_unit_ok. destruct F; try discriminate I; rewrite H; repeat rewrite orb_true_r; reflexivity.
+Qed.
+
+Lemma c04_inv_state_ok c s : c04_inv c s -> c04_state_ok c s = true.
+Proof.
+  intros (H1 & (F & H2) & _). unfold c04_state_ok. rewrite H1. apply (c04_face_ok_state _ _ _ _ H2).
+Qed.
 
 (* typing facts used by the step lemma *)
 Lemma c04_is_unit_ty c k x :
@@ -70,20 +96,22 @@ Proof.
   - discriminate.
 Qed.
 
-Lemma c04_norm_ty c k x :
-  c04_ty_xyz c x = Some (TUnit k) \/ c04_ty_xyz c x = Some (TScaled k) ->
-  c04_ty_xyz c (XNorm x) = Some (TUnit k).
-Proof. intros [H|H]; simpl; rewrite H; reflexivity. Qed.
-
 Ltac c04_hyps :=
   repeat match goal with
   | H : _ /\ _ |- _ => destruct H
+  | H : exists _, _ |- _ => let F := fresh "F" in destruct H as [F H]
+  | H : c04_face_ok _ _ _ _ = true |- _ => unfold c04_face_ok in H
   | H : andb _ _ = true |- _ => apply andb_prop in H
   | H : c04_opt _ (Some _) = true |- _ => cbn [c04_opt] in H
   | H : c04_opt _ None = true |- _ => clear H
   | H : c04_ll_ok _ _ _ = true |- _ => apply c04_ll_ok_iff in H
   | H : c04_xyz_unit_ok _ _ _ = true |- _ => apply c04_xyz_unit_ok_iff in H
   | H : c04_xyz_ok _ _ _ = true |- _ => apply c04_xyz_ok_iff in H
+  | H : c04_is_face_fam ?F = true |- _ =>
+      lazymatch goal with
+      | _ : c04_base F = KFace |- _ => fail
+      | _ => pose proof (c04_base_face F H)
+      end
   end.
 
 Ltac c04_rew :=
@@ -91,79 +119,104 @@ Ltac c04_rew :=
   | H : c04_ty_ll ?c ?l = _ |- context [c04_ty_ll ?c ?l] => rewrite H
   | H : c04_ty_xyz ?c ?x = _ |- context [c04_ty_xyz ?c ?x] => rewrite H
   | H : c04_supplied ?c ?k = _ |- context [c04_supplied ?c ?k] => rewrite H
+  | H : c04_base ?F = _ |- context [c04_base ?F] => rewrite H
+  | H : c04_is_face_fam ?F = _ |- context [c04_is_face_fam ?F] => rewrite H
+  | |- context [c04_kind_eqb ?F ?F] => rewrite (c04_kind_eqb_refl F)
+  end.
+
+(* two typing facts about one expression: identify the families *)
+Ltac c04_dedup :=
+  repeat match goal with
+  | H1 : c04_ty_xyz ?c ?x = Some ?A, H2 : c04_ty_xyz ?c ?x = Some ?B |- _ =>
+      first [ constr_eq A B; clear H2
+            | rewrite H1 in H2; first [ discriminate H2 | injection H2; intros; subst; clear H2 ] ]
+  | H1 : c04_ty_ll ?c ?x = Some ?A, H2 : c04_ty_ll ?c ?x = Some ?B |- _ =>
+      first [ constr_eq A B; clear H2
+            | rewrite H1 in H2; first [ discriminate H2 | injection H2; intros; subst; clear H2 ] ]
   end.
 
 Lemma c04_not_supplied c k a b :
   (c04_supplied c k = true -> a || b = true) -> a = false -> b = false -> c04_supplied c k = false.
 Proof. intros H -> ->. destruct (c04_supplied c k); auto. discriminate (H eq_refl). Qed.
 
-(* a fully repaired variant: the six other sites are `true`, the node site is repaired one way or
-   the other (or both) *)
+(* a fully repaired variant: the other sites are `true`, the node site is repaired one way or the
+   other (or both) *)
 Local Ltac c04_fx_others fx A :=
-  destruct fx as [w a f2 f3 f4 f5 f6 f7]; unfold c04_all_fixed in A;
-  cbn [fx_node_wrap fx_node_after fx_face_deg fx_edge_deg fx_face_norm fx_edge_norm fx_edge_check fx_face_check] in A;
+  destruct fx as [w a f2 f3 f4 f5 f6 f7 f8]; unfold c04_all_fixed in A;
+  cbn [fx_node_wrap fx_node_after fx_face_deg fx_edge_deg fx_face_norm fx_edge_norm fx_edge_check fx_face_check
+       fx_welzl_deg] in A;
   repeat (apply andb_prop in A; let B := fresh "B" in destruct A as [A B]); subst.
 
 Local Ltac c04_unf :=
-  cbv beta iota zeta delta [c04_inv c04_state_ok c04_state_unit c04_step c04_get_node_ll c04_ensure_node_xyz
+  cbv beta iota zeta delta [c04_inv c04_step c04_get_node_ll c04_ensure_node_xyz
     c04_populate_centroids c04_set_range c04_set_ll c04_set_xyz c04_get_ll c04_get_xyz
     c04_the_ll c04_the_xyz c04_present st_nll st_nxyz st_ell st_exyz st_fll st_fxyz st_norm option_map
     c04_fx_deg c04_fx_norm c04_fx_check fx_node_wrap fx_node_after fx_face_deg fx_edge_deg fx_face_norm
-    fx_edge_norm fx_edge_check fx_face_check] in *.
+    fx_edge_norm fx_edge_check fx_face_check fx_welzl_deg c04_welzl c04_cart_avg
+    c04_normalize c04_check_normalization c04_set_norm negb] in *.
 
-(* solves the typing goals left after unfolding one getter *)
+(* boolean typing goals *)
+Local Ltac c04_bool :=
+  unfold c04_face_ok, c04_opt, c04_ll_ok, c04_xyz_ok, c04_xyz_unit_ok in *;
+  cbn [c04_ty_ll c04_ty_xyz andb orb c04_base c04_kind_eqb c04_is_face_fam] in *;
+  c04_rew;
+  cbn [c04_kind_eqb andb orb c04_base c04_is_face_fam] in *;
+  c04_rew;
+  cbn [c04_kind_eqb andb orb] in *;
+  try reflexivity; try discriminate; try assumption.
+
+(* a family for the face centres: the one they already have, or a fresh one *)
+Local Ltac c04_fam :=
+  lazymatch goal with
+  | |- exists _, _ =>
+      first
+        [ match goal with
+          | HF : c04_is_face_fam ?F = true |- _ => exists F; solve [repeat split; c04_bool]
+          end
+        | exists KFace; solve [repeat split; c04_bool]
+        | exists KFaceMean; solve [repeat split; c04_bool]
+        | exists KFaceWelzl; solve [repeat split; c04_bool] ]
+  | |- _ => idtac
+  end.
+
 Local Ltac c04_solve :=
   c04_hyps;
   repeat match goal with
   | H : c04_ty_xyz _ _ = Some _ \/ c04_ty_xyz _ _ = Some _ |- _ => destruct H
   end;
   repeat split; intros;
-  unfold c04_opt, c04_ll_ok, c04_xyz_ok, c04_xyz_unit_ok in *;
-  cbn [c04_ty_ll c04_ty_xyz andb orb] in *;
-  c04_rew;
-  cbn [c04_kind_eqb andb orb c04_opt] in *;
-  try reflexivity;
-  try (match goal with
-       | Iu : ?n = true -> _, Hn : ?n = true |- _ =>
-           specialize (Iu Hn);
-           repeat match goal with
-           | H : c04_ty_xyz ?c ?x = _ |- _ =>
-               match type of Iu with context [c04_ty_xyz c x] => rewrite H in Iu end
-           end;
-           cbn [andb] in Iu; discriminate Iu
-       end); try discriminate; try assumption; auto.
+  try match goal with
+      | Iu : ?n = true -> _, Hn : ?n = true |- _ => specialize (Iu Hn); c04_hyps
+      end;
+  repeat match goal with
+  | H : c04_ty_xyz _ _ = Some _ \/ c04_ty_xyz _ _ = Some _ |- _ => destruct H
+  end;
+  try (c04_dedup; fail);
+  c04_dedup;
+  c04_fam; c04_bool; auto.
+
+Definition c04_is_access (o : c04_op) : bool :=
+  match o with OGetLL _ | OGetXYZ _ | OWelzl | OCartAvg | ONop => true | ONormalize => false end.
+
+Local Ltac c04_states s :=
+  destruct s as [nll nxyz ell exyz fll fxyz nrm];
+  destruct nll as [nll|], nxyz as [nxyz|], ell as [ell|], exyz as [exyz|], fll as [fll|], fxyz as [fxyz|].
 
 Lemma c04_getter_inv fx c s o :
   c04_all_fixed fx = true ->
-  o <> ONormalize -> c04_inv c s -> c04_inv c (c04_step fx c s o).
+  c04_is_access o = true -> c04_inv c s -> c04_inv c (c04_step fx c s o).
 Proof.
-  intros A Ho I. c04_fx_others fx A. destruct w, a; try discriminate A; clear A.
-  all: destruct s as [nll nxyz ell exyz fll fxyz nrm].
-  all:
-  destruct o as [k|k|]; [| |congruence]; destruct k;
-    destruct nll as [nll|], nxyz as [nxyz|], ell as [ell|], exyz as [exyz|], fll as [fll|], fxyz as [fxyz|];
-    c04_unf;
-    try (destruct I as (_ & I & _); discriminate I);
-    destruct I as (Iok & Inode & Ie & If & Iu);
+  intros A Ho I. c04_fx_others fx A.
+  destruct o as [k|k| | | |]; try discriminate Ho; [destruct k|destruct k| | |]; try exact I.
+  (* node lon/lat and Welzl go through the node getter: the two repairs of that site *)
+  1, 7: destruct w, a; try discriminate A.
+  all: clear A; c04_states s; c04_unf;
+    try (destruct I as (_ & _ & I & _); discriminate I);
+    destruct I as (Iok & Iface & Inode & Ie & If & Iu);
     try (assert (Se : c04_supplied c KEdge = false) by (apply (c04_not_supplied _ _ _ _ Ie); reflexivity));
     try (assert (Sf : c04_supplied c KFace = false) by (apply (c04_not_supplied _ _ _ _ If); reflexivity));
-    cbn [c04_opt andb] in Iu;
     c04_solve.
 Qed.
-
-Local Ltac c04_unf_norm :=
-  cbv beta iota zeta delta [c04_inv c04_state_ok c04_state_unit c04_step c04_normalize c04_check_normalization
-    c04_set_norm c04_get_ll c04_get_xyz c04_present st_nll st_nxyz st_ell st_exyz st_fll st_fxyz st_norm
-    option_map negb c04_fx_deg c04_fx_norm c04_fx_check fx_node_wrap fx_node_after fx_face_deg fx_edge_deg
-    fx_face_norm fx_edge_norm fx_edge_check fx_face_check] in *.
-
-Local Ltac c04_unit_facts :=
-  repeat match goal with
-  | U : c04_is_unit ?c ?x = true, H : c04_ty_xyz ?c ?x = Some (TScaled ?k) |- _ =>
-      let T := fresh "T" in
-      assert (T : c04_ty_xyz c x = Some (TUnit k)) by (apply c04_is_unit_ty; auto);
-      rewrite H in T; discriminate T
-  end.
 
 Lemma c04_normalize_inv fx c s :
   c04_all_fixed fx = true ->
@@ -171,11 +224,9 @@ Lemma c04_normalize_inv fx c s :
   c04_inv c (c04_step fx c s ONormalize) /\ c04_state_unit c (c04_step fx c s ONormalize) = true.
 Proof.
   intros A I. c04_fx_others fx A. clear A.
-  destruct s as [nll nxyz ell exyz fll fxyz nrm].
-  destruct nll as [nll|], nxyz as [nxyz|], ell as [ell|], exyz as [exyz|], fll as [fll|], fxyz as [fxyz|],
-    nrm;
-    c04_unf_norm;
-    destruct I as (Iok & Inode & Ie & If & Iu);
+  c04_states s; destruct nrm;
+    c04_unf;
+    destruct I as (Iok & Iface & Inode & Ie & If & Iu);
     try specialize (Iu eq_refl);
     repeat match goal with
     | |- context [c04_is_unit ?c ?x] => destruct (c04_is_unit c x) eqn:?; cbv beta iota zeta
@@ -184,28 +235,35 @@ Proof.
     repeat match goal with
     | H : c04_ty_xyz _ _ = Some _ \/ c04_ty_xyz _ _ = Some _ |- _ => destruct H
     end;
-    c04_unit_facts;
-    repeat split; intros;
-    unfold c04_opt, c04_ll_ok, c04_xyz_ok, c04_xyz_unit_ok in *;
-    cbn [c04_ty_ll c04_ty_xyz andb orb] in *;
-    c04_rew;
-    cbn [c04_kind_eqb andb orb] in *;
-    try reflexivity; try discriminate; try assumption; auto.
+    repeat match goal with
+    | U : c04_is_unit ?c ?x = true, H : c04_ty_xyz ?c ?x = Some (TScaled ?k) |- _ =>
+        let T := fresh "T" in
+        assert (T : c04_ty_xyz c x = Some (TUnit k)) by (apply c04_is_unit_ty; auto);
+        rewrite H in T; discriminate T
+    end;
+    try (c04_dedup; fail); c04_dedup;
+    (split; [repeat split; intros; c04_fam; c04_bool; auto|]);
+    unfold c04_state_unit; cbn [st_nxyz st_exyz st_fxyz];
+    match goal with
+    | HF : c04_is_face_fam ?F = true |- _ =>
+        rewrite (c04_face_unit_state c _ F HF) by c04_bool; c04_bool
+    | |- _ => unfold c04_face_unit_ok; c04_bool
+    end.
 Qed.
 
 Lemma c04_step_inv fx c s o : c04_all_fixed fx = true -> c04_inv c s -> c04_inv c (c04_step fx c s o).
 Proof.
-  intros A I. destruct o as [k|k|].
-  - apply c04_getter_inv; [exact A|discriminate|exact I].
-  - apply c04_getter_inv; [exact A|discriminate|exact I].
-  - apply c04_normalize_inv; [exact A|exact I].
+  intros A I. destruct (c04_is_access o) eqn:E.
+  - apply c04_getter_inv; assumption.
+  - destruct o; try discriminate E. apply c04_normalize_inv; [exact A|exact I].
 Qed.
 
 Lemma c04_init_inv c : c04_wf_case c = true -> c04_inv c (c04_init c).
 Proof.
   destruct c as [pn pe pf sn se sf]. unfold c04_wf_case, c04_supplied, c04_prov_of; simpl.
   destruct pn, pe, pf, sn, se, sf; simpl; intros W; try discriminate W;
-    unfold c04_inv, c04_init; simpl; repeat split; intros; try reflexivity; try discriminate.
+    unfold c04_inv, c04_init; simpl; repeat split; intros; try reflexivity; try discriminate;
+    exists KFace; reflexivity.
 Qed.
 
 Lemma c04_run_inv_from fx c ops : c04_all_fixed fx = true ->
@@ -215,13 +273,15 @@ Proof.
   apply IH. apply c04_step_inv; [exact A|exact I].
 Qed.
 
-(* history theorem, symbolic form: whatever the source supplies and whatever is accessed in
-   whatever order, every coordinate group the repaired Grid holds is well-united *)
+(* history theorem, symbolic form: whatever the source supplies and whatever is accessed, derived
+   again through construct_face_centers, re-assigned or normalised in whatever order, every
+   coordinate group the repaired Grid holds is well-united, and the lon/lat and Cartesian face
+   centres belong to the same family *)
 Lemma c04_provenance_sym fx c ops :
   c04_all_fixed fx = true -> c04_wf_case c = true -> c04_state_ok c (c04_run fx c ops) = true.
 Proof.
-  intros A W. unfold c04_run.
-  destruct (c04_run_inv_from fx c ops A (c04_init c) (c04_init_inv c W)) as (H & _). exact H.
+  intros A W. unfold c04_run. apply c04_inv_state_ok.
+  apply (c04_run_inv_from fx c ops A (c04_init c) (c04_init_inv c W)).
 Qed.
 
 (* ... and right after normalize_cartesian_coordinates all Cartesian groups are unit *)
@@ -238,18 +298,17 @@ Lemma c04_trace_ok fx c ops : c04_all_fixed fx = true -> forall s, c04_inv c s -
   Forall (fun s' => c04_state_ok c s' = true) (c04_trace fx c s ops).
 Proof.
   intros A. induction ops as [|o ops IH]; intros s I; simpl; constructor.
-  - apply (c04_step_inv fx c s o A I).
+  - apply c04_inv_state_ok. apply (c04_step_inv fx c s o A I).
   - apply IH. apply c04_step_inv; [exact A|exact I].
 Qed.
-
 
 Lemma c04_every_report_sym fx c ops :
   c04_all_fixed fx = true -> c04_wf_case c = true ->
   Forall (fun s => c04_state_ok c s = true) (c04_trace fx c (c04_init c) ops).
 Proof. intros A W. apply c04_trace_ok; [exact A|]. apply c04_init_inv. exact W. Qed.
 
-(* the code as found: witnesses.  Each of the seven sites alone breaks the property, whatever the
-   state of the other six *)
+(* the code as found: witnesses.  Each of the eight sites alone breaks the property, whatever the
+   state of the others *)
 Definition c04_mk_case (pn pe pf : c04_prov) (se sf : bool) : c04_case :=
   {| cs_node := pn; cs_edge := pe; cs_face := pf; cs_sc_node := false; cs_sc_edge := se; cs_sc_face := sf |}.
 Definition c04_case_xyz_nodes : c04_case := c04_mk_case PXYZ PNone PNone false false.
@@ -264,8 +323,9 @@ Definition c04_bad (fx : c04_fixes) (c : c04_case) (ops : list c04_op) : Prop :=
    c04_state_unit c (c04_run fx c (ops ++ [ONormalize])) = false).
 
 Local Ltac c04_witness :=
-  intros fx; destruct fx as [w a f2 f3 f4 f5 f6 f7];
-  cbn [fx_node_wrap fx_node_after fx_face_deg fx_edge_deg fx_face_norm fx_edge_norm fx_edge_check fx_face_check];
+  intros fx; destruct fx as [w a f2 f3 f4 f5 f6 f7 f8];
+  cbn [fx_node_wrap fx_node_after fx_face_deg fx_edge_deg fx_face_norm fx_edge_norm fx_edge_check fx_face_check
+       fx_welzl_deg];
   intros; subst;
   repeat match goal with x : bool |- _ => destruct x end;
   (split; [reflexivity|]; first [left; vm_compute; reflexivity | right; vm_compute; reflexivity]).
@@ -293,7 +353,11 @@ Proof. c04_witness. Qed.
 Lemma c04_edge_check_refuted : forall fx, fx_edge_check fx = false -> c04_bad fx c04_case_scaled_edges [].
 Proof. c04_witness. Qed.
 
-(* the verdict for any variant of the source: with all seven sites repaired the property holds for
+(* construct_face_centers("welzl"): the routine's degrees read as radians *)
+Lemma c04_welzl_refuted : forall fx, fx_welzl_deg fx = false -> c04_bad fx c04_case_xyz_nodes [OWelzl].
+Proof. c04_witness. Qed.
+
+(* the verdict for any variant of the source: with all eight sites repaired the property holds for
    every source and history; with any site as found it fails on a concrete source and history *)
 Definition c04_verdict (fx : c04_fixes) : Prop :=
   if c04_all_fixed fx
@@ -316,17 +380,18 @@ Proof.
     all: destruct (fx_edge_norm fx) eqn:F5; [|eexists; eexists; apply (c04_edge_norm_refuted fx F5)].
     all: destruct (fx_edge_check fx) eqn:F6; [|eexists; eexists; apply (c04_edge_check_refuted fx F6)].
     all: destruct (fx_face_check fx) eqn:F7; [|eexists; eexists; apply (c04_face_check_refuted fx F7)].
+    all: destruct (fx_welzl_deg fx) eqn:F8; [|eexists; eexists; apply (c04_welzl_refuted fx F8)].
     all: discriminate A.
 Qed.
 
-(* the source as found (all seven sites): the property fails *)
+(* the source as found (all eight sites): the property fails *)
 Lemma c04_as_found_refuted : exists c ops, c04_bad c04_as_found c ops.
 Proof. exact (c04_verdict_all c04_as_found). Qed.
 
 (* non-vacuity: a well-formed source and a history that derives every group *)
 Example c04_provenance_nonvacuous :
   c04_wf_case c04_case_ll_faces = true /\
-  c04_enc_state c04_case_ll_faces (c04_run c04_fixed_all c04_case_ll_faces [OGetXYZ KFace; OGetLL KEdge; ONormalize]) <> [].
+  c04_enc_state c04_case_ll_faces (c04_run c04_fixed_all c04_case_ll_faces [OGetXYZ KFace; OWelzl; OGetLL KEdge; OCartAvg; ONormalize]) <> [].
 Proof. split; [reflexivity|discriminate]. Qed.
 
 (* ========================================================================================== *)
@@ -686,6 +751,8 @@ Record c04_env_ok (c : c04_case) (en : c04_env) : Prop := {
   ok_scale_1 : forall k, c04_scaled c k = false -> en_scale en k = 1;
   ok_corners : forall k i j, (i < en_count en k)%nat -> In j (en_corners en k i) ->
       (j < en_count en KNode)%nat;
+  ok_count : forall k, en_count en k = en_count en (c04_base k);
+  ok_welzl : forall i, (i < en_count en KFaceWelzl)%nat -> fst (en_ll en KFaceWelzl i) <= 180;
   ok_mean : forall k i, c04_supplied c k = false -> (i < en_count en k)%nat ->
       let m := c04_sum3 (map (en_dir en KNode) (en_corners en k i)) in
       en_corners en k i <> [] /\ 0 < c04_dot m m /\ en_dir en k i = c04_normalize3 m }.
@@ -744,14 +811,26 @@ Proof.
   intros OK. pose proof PI_RGT_0 as Ppos.
   apply c04_expr_mutind.
   - (* LSrc *)
-    intros k t H. simpl in H. destruct (c04_has_ll (c04_prov_of c k)) eqn:P; [|discriminate].
-    inversion H; subst t. simpl. intros i Hi. apply (ok_ll c en OK k i P Hi).
+    intros k t H.
+    assert (G : c04_has_ll (c04_prov_of c k) = true -> c04_ll_sem en (TDegWide k) (c04_sem_ll en (LSrc k)))
+      by (intros P i Hi; apply (ok_ll c en OK k i P Hi)).
+    assert (G' : forall t0, (if c04_has_ll (c04_prov_of c k) then Some (TDegWide k) else None) = Some t0 ->
+                 c04_ll_sem en t0 (c04_sem_ll en (LSrc k))).
+    { intros t0 H0. destruct (c04_has_ll (c04_prov_of c k)) eqn:P; [|discriminate].
+      inversion H0; subst. apply G; reflexivity. }
+    destruct k; simpl in H; try (apply G'; exact H).
+    inversion H; subst t. simpl. intros i Hi.
+    destruct (ok_ll c en OK KFaceWelzl i eq_refl Hi) as (B0 & B & C).
+    pose proof (ok_welzl c en OK i Hi). simpl in *. repeat split; try lra; assumption.
   - (* LCondWrap *)
     intros k l IH t H. simpl in H.
     destruct (c04_ty_ll c l) as [[k'|k'|k'|k']|] eqn:T; try discriminate;
-      destruct (c04_kind_eqb k k') eqn:K; try discriminate; apply c04_kind_eqb_eq in K; subst k';
+      destruct (c04_kind_eqb (c04_base k) (c04_base k')) eqn:K; try discriminate; apply c04_kind_eqb_eq in K;
+      assert (CK : en_count en k = en_count en k')
+        by (rewrite (ok_count c en OK k), (ok_count c en OK k'), K; reflexivity);
       inversion H; subst t; specialize (IH _ eq_refl); simpl in IH |- *; intros i Hi;
-      destruct (c04_any_gt180 (fun j => fst (c04_sem_ll en l j)) (en_count en k)) eqn:A.
+      rewrite CK;
+      destruct (c04_any_gt180 (fun j => fst (c04_sem_ll en l j)) (en_count en k')) eqn:A.
     + destruct (IH i Hi) as (_ & B & C). apply c04_wrap_ll_sem; assumption.
     + apply IH; exact Hi.
     + destruct (IH i Hi) as (_ & B & C). apply c04_wrap_ll_sem; assumption.
@@ -836,48 +915,77 @@ Proof.
         rewrite (c04_sum3_map_ext (c04_sem_xyz en x) (fun j => c04_scale s (en_dir en KNode j))).
         + rewrite <- (map_map (en_dir en KNode) (c04_scale s)). apply c04_sum3_scale.
         + intros j Hj. apply Hx. apply (ok_corners c en OK k i j Hi Hj). }
-    destruct k; [discriminate| |];
+    destruct k; try discriminate;
       destruct (c04_ty_xyz c x) as [[[]|[]|[]]|] eqn:T; try discriminate;
-      inversion H; subst t; specialize (IH _ eq_refl); simpl in IH.
-    + apply (G 1); [lra|]. intros j Hj. rewrite c04_scale_1. apply IH; exact Hj.
-    + apply (G (en_scale en KNode)); [apply (ok_scale_pos c en OK)|]. exact IH.
-    + apply (G 1); [lra|]. intros j Hj. rewrite c04_scale_1. apply IH; exact Hj.
-    + apply (G (en_scale en KNode)); [apply (ok_scale_pos c en OK)|]. exact IH.
+      inversion H; subst t; specialize (IH _ eq_refl); simpl in IH;
+      first [ apply (G 1); [lra|]; intros j Hj; rewrite c04_scale_1; apply IH; exact Hj
+            | apply (G (en_scale en KNode)); [apply (ok_scale_pos c en OK)|]; exact IH ].
 Qed.
 
-(* History theorem, semantic form: for every source and history the repaired Grid reports, for
-   every element, lon/lat in the standard ranges that denote exactly the element's direction,
-   and Cartesian coordinates that are a positive multiple of it — of unit length whenever the
-   source did not supply them. *)
+(* History theorem, semantic form: for every source and history (accesses, construct_face_centers,
+   re-assignments, normalisation) the repaired Grid reports, for every element, lon/lat in the
+   standard ranges that denote exactly the direction of its family, and Cartesian coordinates that
+   are a positive multiple of the SAME direction — of unit length whenever the source did not supply
+   them.  For faces the family is the source's / derived centres or the one installed by
+   construct_face_centers; lon/lat and Cartesian always belong to the same one. *)
+Definition c04_ll_denotes (en : c04_env) (F : c04_kind) (l : c04_ll) : Prop :=
+  forall i, (i < en_count en F)%nat ->
+    -180 <= fst (c04_sem_ll en l i) <= 180 /\ -90 <= snd (c04_sem_ll en l i) <= 90 /\
+    c04_ll2xyz (c04_map_ll c04_deg2rad (c04_sem_ll en l i)) = en_dir en F i.
+Definition c04_xyz_denotes (c : c04_case) (en : c04_env) (F : c04_kind) (x : c04_xyz) : Prop :=
+  forall i, (i < en_count en F)%nat ->
+    exists r, 0 < r /\ c04_sem_xyz en x i = c04_scale r (en_dir en F i) /\
+              (c04_has_xyz (c04_prov_of c F) = false -> r = 1).
+
+Lemma c04_wf_not_scaled c F :
+  c04_wf_case c = true -> c04_has_xyz (c04_prov_of c F) = false -> c04_scaled c F = false.
+Proof.
+  intros W NX. unfold c04_wf_case in W. repeat (apply andb_prop in W; destruct W as [W ?]).
+  destruct F; simpl in NX |- *; try reflexivity; rewrite NX in *; simpl in *;
+    match goal with H : negb ?b = true |- ?b = false => destruct b; [discriminate|reflexivity] end.
+Qed.
+
+Lemma c04_ll_ok_denotes c en F l :
+  c04_env_ok c en -> c04_ll_ok c F l = true -> c04_ll_denotes en F l.
+Proof.
+  intros OK H. apply c04_ll_ok_iff in H. destruct (c04_ty_sound c en OK) as [SL _].
+  intros i Hi. apply (SL l _ H i Hi).
+Qed.
+
+Lemma c04_xyz_ok_denotes c en F x :
+  c04_wf_case c = true -> c04_env_ok c en -> c04_xyz_ok c F x = true -> c04_xyz_denotes c en F x.
+Proof.
+  intros W OK H. apply c04_xyz_ok_iff in H. destruct (c04_ty_sound c en OK) as [_ SX].
+  intros i Hi. destruct H as [T|T].
+  - exists 1. split; [lra|]. split; [|reflexivity]. rewrite c04_scale_1. apply (SX x _ T i Hi).
+  - exists (en_scale en F). split; [apply (ok_scale_pos c en OK)|]. split; [apply (SX x _ T i Hi)|].
+    intros NX. apply (ok_scale_1 c en OK). apply c04_wf_not_scaled; assumption.
+Qed.
+
 Lemma c04_provenance_sem fx c en ops :
   c04_all_fixed fx = true -> c04_wf_case c = true -> c04_env_ok c en ->
-  (forall k l, c04_get_ll (c04_run fx c ops) k = Some l -> forall i, (i < en_count en k)%nat ->
-      -180 <= fst (c04_sem_ll en l i) <= 180 /\ -90 <= snd (c04_sem_ll en l i) <= 90 /\
-      c04_ll2xyz (c04_map_ll c04_deg2rad (c04_sem_ll en l i)) = en_dir en k i) /\
-  (forall k x, c04_get_xyz (c04_run fx c ops) k = Some x -> forall i, (i < en_count en k)%nat ->
-      exists r, 0 < r /\ c04_sem_xyz en x i = c04_scale r (en_dir en k i) /\
-                (c04_has_xyz (c04_prov_of c k) = false -> r = 1)).
+  let s := c04_run fx c ops in
+  (forall l, st_nll s = Some l -> c04_ll_denotes en KNode l) /\
+  (forall x, st_nxyz s = Some x -> c04_xyz_denotes c en KNode x) /\
+  (forall l, st_ell s = Some l -> c04_ll_denotes en KEdge l) /\
+  (forall x, st_exyz s = Some x -> c04_xyz_denotes c en KEdge x) /\
+  exists F, c04_is_face_fam F = true /\
+    (forall l, st_fll s = Some l -> c04_ll_denotes en F l) /\
+    (forall x, st_fxyz s = Some x -> c04_xyz_denotes c en F x).
 Proof.
-  intros A W OK. pose proof (c04_provenance_sym fx c ops A W) as S.
-  destruct (c04_ty_sound c en OK) as [SL SX].
-  set (s := c04_run fx c ops) in *. unfold c04_state_ok in S.
-  repeat (apply andb_prop in S; destruct S as [S ?]).
-  split.
-  - intros k l G i Hi.
-    assert (T : c04_ty_ll c l = Some (TDegStd k)).
-    { apply c04_ll_ok_iff. destruct k; simpl in G; rewrite G in *; simpl in *; assumption. }
-    apply (SL l _ T i Hi).
-  - intros k x G i Hi.
-    assert (T : c04_ty_xyz c x = Some (TUnit k) \/ c04_ty_xyz c x = Some (TScaled k)).
-    { apply c04_xyz_ok_iff. destruct k; simpl in G; rewrite G in *; simpl in *; assumption. }
-    destruct T as [T|T].
-    + exists 1. split; [lra|]. split; [|reflexivity].
-      rewrite c04_scale_1. apply (SX x _ T i Hi).
-    + exists (en_scale en k). split; [apply (ok_scale_pos c en OK)|]. split; [apply (SX x _ T i Hi)|].
-      intros NX. apply (ok_scale_1 c en OK).
-      unfold c04_wf_case in W. repeat (apply andb_prop in W; destruct W as [W ?]).
-      destruct k; simpl in NX |- *; rewrite NX in *; simpl in *;
-        match goal with H : negb ?b = true |- ?b = false => destruct b; [discriminate|reflexivity] end.
+  intros A W OK s.
+  assert (I : c04_inv c s) by (apply c04_run_inv_from; [exact A|apply c04_init_inv; exact W]).
+  destruct I as (Iok & (F & IF) & _).
+  repeat (apply andb_prop in Iok; destruct Iok as [Iok ?]).
+  unfold c04_face_ok in IF. repeat (apply andb_prop in IF; destruct IF as [IF ?]).
+  split; [|split; [|split; [|split]]].
+  - intros l0 E0. rewrite E0 in *. eapply c04_ll_ok_denotes; eassumption.
+  - intros x0 E0. rewrite E0 in *. eapply c04_xyz_ok_denotes; eassumption.
+  - intros l0 E0. rewrite E0 in *. eapply c04_ll_ok_denotes; eassumption.
+  - intros x0 E0. rewrite E0 in *. eapply c04_xyz_ok_denotes; eassumption.
+  - exists F. split; [exact IF|]. split.
+    + intros l0 E0. rewrite E0 in *. eapply c04_ll_ok_denotes; eassumption.
+    + intros x0 E0. rewrite E0 in *. eapply c04_xyz_ok_denotes; eassumption.
 Qed.
 
 (* ... while the code as it is reports a node longitude of 270 degrees for the point (0,-1,0) of a
@@ -907,11 +1015,13 @@ Proof.
   - constructor; simpl; intros.
     + c04_v3. ring.
     + left. simpl. rewrite Rabs_R0. lra.
-    + destruct k; discriminate.
+    + destruct k; try discriminate; simpl in *; lia.
     + rewrite c04_scale_1. reflexivity.
     + lra.
     + reflexivity.
     + contradiction.
+    + destruct k; reflexivity.
+    + lia.
     + destruct k; simpl in *; try discriminate; lia.
   - simpl c04_sem_ll. simpl c04_sem_xyz. unfold c04_env_one_node; simpl en_xyz.
     assert (U : c04_dot (0, -1, 0) (0, -1, 0) = 1) by (c04_v3; ring).
@@ -977,7 +1087,7 @@ Qed.
 (* non-vacuity of the hypotheses: a source with two nodes and one derived edge centre *)
 Definition c04_env_two_nodes : c04_env :=
   let n (i : nat) : c04_v3 := match i with O => (1, 0, 0) | _ => (0, 1, 0) end in
-  {| en_count := fun k => match k with KNode => 2%nat | KEdge => 1%nat | KFace => 0%nat end;
+  {| en_count := fun k => match k with KNode => 2%nat | KEdge => 1%nat | _ => 0%nat end;
      en_corners := fun k _ => match k with KEdge => [0%nat; 1%nat] | _ => [] end;
      en_ll := fun _ _ => (0, 0);
      en_xyz := fun k i => n i;
@@ -994,22 +1104,21 @@ Proof.
                           (c04_sum3 (map (fun i : nat => match i with O => (1, 0, 0) | _ => (0, 1, 0) end) [0%nat; 1%nat]))).
   { unfold c04_sum3, c04_zero3; simpl. c04_v3. lra. }
   constructor; unfold c04_env_two_nodes; cbn [en_count en_corners en_ll en_xyz en_dir en_scale].
-  - intros k i. destruct k.
-    + destruct i; c04_v3; ring.
-    + destruct (c04_normalize_dir _ D) as (? & _ & _ & U). exact U.
-    + destruct (c04_normalize_dir _ D) as (? & _ & _ & U). exact U.
-  - intros k i. left. destruct k.
-    + destruct i; simpl; rewrite Rabs_R0; lra.
-    + unfold c04_normalize3, c04_sum3, c04_zero3; simpl. unfold c04_scale, c04_pz; simpl.
-      replace (0 + (0 + 0)) with 0 by ring. rewrite Rmult_0_r, Rabs_R0. lra.
-    + unfold c04_normalize3, c04_sum3, c04_zero3; simpl. unfold c04_scale, c04_pz; simpl.
-      replace (0 + (0 + 0)) with 0 by ring. rewrite Rmult_0_r, Rabs_R0. lra.
-  - intros k i H. destruct k; discriminate.
+  - intros k i. destruct k;
+      try (destruct (c04_normalize_dir _ D) as (? & _ & _ & U); exact U).
+    destruct i; c04_v3; ring.
+  - intros k i. left. destruct k;
+      try (unfold c04_normalize3, c04_sum3, c04_zero3; simpl; unfold c04_scale, c04_pz; simpl;
+           replace (0 + (0 + 0)) with 0 by ring; rewrite Rmult_0_r, Rabs_R0; lra).
+    destruct i; simpl; rewrite Rabs_R0; lra.
+  - intros k i H Hi. destruct k; try discriminate; simpl in Hi; lia.
   - intros k i H Hi. destruct k; try discriminate. rewrite c04_scale_1. reflexivity.
   - intros; lra.
   - reflexivity.
   - intros k i j Hi Hj. destruct k; simpl in Hj; try contradiction.
     destruct Hj as [<-|[<-|[]]]; lia.
+  - intros k. destruct k; reflexivity.
+  - intros i Hi. lia.
   - intros k i S Hi. destruct k; simpl in *; try discriminate; try lia.
     split; [discriminate|]. split; [exact D|reflexivity].
 Qed.
